@@ -210,7 +210,7 @@ static void run_cuts(Out& out, const DPoly& P, uint64_t limit, double precision,
         out.P(id, "FAIL c12-fracture-scan-oob every vertex is the same point: `while (interior_coords.items[0] == coords[0])` reads past the coords allocation (observed: slice called with " + result_text(c).substr(0, 60) + ")");
     else if (!same_points(c.subj, P)) out.P(id, "FAIL c12-cuts-subject the first subject handed to slice is not the polygon itself");
     else if (kind == "cutsall" && !finished)
-        out.P(id, std::string("FAIL c12-fracture-") + (res == "HANG" ? "hang" : "crash") + " fracture did not return (" + res.substr(0, 30) + ") after " + std::to_string(calls.size()) + " logged rounds; last logged cut list: " + result_text(calls.back()).substr(0, 60));
+        out.P(id, std::string("FAIL c12-cutsall-") + (res == "HANG" ? "hang" : "crash") + " fracture did not return (" + res.substr(0, 30) + ") after " + std::to_string(calls.size()) + " logged rounds; last logged cut list: " + result_text(calls.back()).substr(0, 60));
     else out.P(id, cuts_oracle(c));
     if (!finished) out.count(res == "HANG" ? "cuts:later-hang" : "cuts:later-crash");
     // later rounds: subjects are pieces Clipper returned
